@@ -26,7 +26,17 @@ def run_worlds(worlds, jobs=None):
     jobs = jobs or C.NCPU
     with cf.ThreadPoolExecutor(max_workers=jobs) as ex:
         results = list(ex.map(W.execute, worlds))
-    answers = C.run_model([r.line for r in results])
+    # Worlds declaring lengths no machine can allocate are outside the model (it would have to materialise the
+    # padding zeros): they are judged on the implementation's outcome alone — the run must return, not abort.
+    modelled = [r for r in results if r.world.tag != "enormous declared length"]
+    ans = iter(C.run_model([r.line for r in modelled]))
+    answers = []
+    for r in results:
+        if r.world.tag == "enormous declared length":
+            bad = r.result in ("panic", "abort", "timeout")
+            answers.append("agree " + ("PROPFAIL:c16-" + r.result if bad else "prop-ok") + " not-modelled")
+        else:
+            answers.append(next(ans))
     cases = []
     for r, a in zip(results, answers):
         c = C.Case(r.request, r.observation, a, tag=r.world.tag or "world")
@@ -134,19 +144,20 @@ def compare_groups(cases):
     return cases
 
 PROPS = {
-    "C01": dict(module="TB.Props.C01", theorems=[], clauses=["c01-"], worlds=lambda t, s: worlds_default(t, s, "c01", 400, 8000, tweak_threads)),
-    "C02": dict(module="TB.Props.C02", theorems=[], clauses=["c02-"], worlds=lambda t, s: worlds_default(t, s, "c02", 400, 8000, tweak_threads)),
-    "C03": dict(module="TB.Props.C03", theorems=[], clauses=["c03-"], worlds=lambda t, s: worlds_default(t, s, "c03", 300, 6000, tweak_threads)),
-    "C04": dict(module="TB.Props.C04", theorems=[], clauses=["c04-"], worlds=lambda t, s: worlds_default(t, s, "c04", 300, 6000, tweak_threads)),
-    "C12": dict(module="TB.Props.C12", theorems=[], clauses=["c12-"], worlds=lambda t, s: worlds_default(t, s, "c12", 300, 6000, tweak_threads)),
-    "C14": dict(module="TB.Props.C14", theorems=[], clauses=["c14-"],
+    "C01": dict(module="TB.Props.C01", theorems=["C01_write_sound", "C01_gate", "C01_writer_cursor", "C01_run"], clauses=["c01-"], worlds=lambda t, s: worlds_default(t, s, "c01", 400, 8000, tweak_threads)),
+    "C02": dict(module="TB.Props.C02", theorems=["C02_search_sound", "C02_search_complete", "C02_piece"], clauses=["c02-"], worlds=lambda t, s: worlds_default(t, s, "c02", 400, 8000, tweak_threads)),
+    "C03": dict(module="TB.Props.C03", theorems=["C03_confined", "C03_readonly", "C03_plain"], clauses=["c03-"], worlds=lambda t, s: worlds_default(t, s, "c03", 300, 6000, tweak_threads),
+                unit_stream=lambda t, s: unit.load_stream("quick", s)[: 3000 if t == "quick" else 8000]),
+    "C04": dict(module="TB.Props.C04", theorems=["C04_export_first", "C04_skip", "C04b_untouched"], clauses=["c04-"], worlds=lambda t, s: worlds_default(t, s, "c04", 300, 6000, tweak_threads)),
+    "C12": dict(module="TB.Props.C12", theorems=["C12_path", "C12_only_run", "C12_len", "C12_disjoint"], clauses=["c12-"], worlds=lambda t, s: worlds_default(t, s, "c12", 300, 6000, tweak_threads)),
+    "C14": dict(module="TB.Props.C14", theorems=["C14_abort", "C14_pass2_ops", "C14_noflag"], clauses=["c14-"],
                 worlds=lambda t, s: [W.gen_world_c14(Rng(s, "c14", i)) for i in range(400 if t == "quick" else 8000)]),
-    "C15": dict(module="TB.Props.C15", theorems=[], clauses=["c15-"], worlds=lambda t, s: worlds_default(t, s, "c15", 300, 6000, tweak_threads)),
-    "C16": dict(module="TB.Props.C16", theorems=[], clauses=["c16-", "c03-", "c12-"],
+    "C15": dict(module="TB.Props.C15", theorems=["C15_sum", "C15_run", "C15_dedup"], clauses=["c15-"], worlds=lambda t, s: worlds_default(t, s, "c15", 300, 6000, tweak_threads)),
+    "C16": dict(module="TB.Props.C16", theorems=["C16_empty", "C16_validate", "C16_piece_total_partial"], clauses=["c16-", "c03-", "c12-"],
                 worlds=lambda t, s: [W.gen_world_c16(Rng(s, "c16", i), i) for i in range(400 if t == "quick" else 8000)]),
-    "C13": dict(module="TB.Props.C13", theorems=[], clauses=["c13-", "c01-", "c16-"], worlds=fault_worlds),
-    "C11": dict(module="TB.Props.C11", theorems=[], clauses=["c11-", "c02-", "c01-"], worlds=crash_worlds, runner=run_crash_cases),
-    "C17": dict(module="TB.Props.C17", theorems=[], clauses=["c17-", "c01-", "c02-", "c03-", "c04-", "c12-"], worlds=meta_worlds, post=compare_groups),
+    "C13": dict(module="TB.Props.C13", theorems=["C13_all_accounted", "C13_local", "C13_found_all_ok"], clauses=["c13-", "c01-", "c16-"], worlds=fault_worlds),
+    "C11": dict(module="TB.Props.C11", theorems=["C11_replay", "C11_prefix_sound"], clauses=["c11-", "c02-", "c01-"], worlds=crash_worlds, runner=run_crash_cases),
+    "C17": dict(module="TB.Props.C17", theorems=["C17_dedup_perm"], clauses=["c17-", "c01-", "c02-", "c03-", "c04-", "c12-"], worlds=meta_worlds, post=compare_groups),
 }
 
 def nontrivial(c):
@@ -169,12 +180,7 @@ def run(pid, tier, seed, replay=None, props=None):
     res.checker_cmd = "cd /verif/lean/TB && lake build %s && lake env lean <#print axioms of the obligations>%s" % (
         cfg["module"], " && lake env leanchecker " + cfg["module"] if tier == "thorough" else "")
     known = E.load_known()
-    if cfg["theorems"]:
-        E.proof_stage(res, cfg["module"], cfg["theorems"], tier)
-    else:
-        ok, out = C.lean_build(["tbmodel"])
-        if not ok:
-            res.build_problems.append(out[-2000:])
+    E.proof_stage(res, cfg["module"], cfg["theorems"], tier)
     ok, out = C.harness_build()
     if not ok:
         p = E.write_replay(pid, "harness-build", {"what": "the harness does not build against /repo's working tree", "output": out[-4000:]})
@@ -193,9 +199,28 @@ def run(pid, tier, seed, replay=None, props=None):
         cases = cfg["post"](cases)
     for c in cases:
         res.count("tag:" + (c.result.world.tag or "world").split("@")[0])
+    if "unit_stream" in cfg:
+        # unit-level part of the property (e.g. C03: adversarial names must be refused when the torrent is loaded)
+        lines = cfg["unit_stream"](tier, seed)
+        ucases = C.differential([l for l, _ in lines], [t for _, t in lines])
+        for c in ucases:
+            c.result = None
+        f_u, d_u = E.judge_cases(res, ucases, cfg["clauses"], unit.nontrivial, known)
+        if f_u:
+            c, mine = sorted(f_u, key=lambda cm: len(cm[0].line))[0]
+            p = E.write_replay(pid, "unit-case", {"line": c.line, "impl": c.obs, "model": c.model, "failed_clauses": mine, "tag": c.tag})
+            res.violations.append((p, ""))
+        elif d_u:
+            c = d_u[0]
+            p = E.write_replay(pid, "unit-correspondence", {"what": "model and implementation disagree on the unit-level stream of this property",
+                                                             "stream": c.line.split(" ")[0], "lines": [x.line for x in d_u[:20]],
+                                                             "first": {"line": c.line, "impl": c.obs, "model": c.model}})
+            res.violations.append((p, "no-failing-input-found"))
     failing, disagree = E.judge_cases(res, cases, cfg["clauses"], nontrivial, known)
     for c in cases:
         r = c.result
+        if r is None:
+            continue
         res.count("result:" + str(r.result))
         res.count("threads:%d" % r.world.threads)
         res.count("pieces", len(r.solves))
